@@ -590,8 +590,7 @@ def check_write_string(run):
     body = ir.stmts(f["body"])
     loops = [s for s in body if s.get("k") in ("While", "For", "Do")]
     if len(loops) != 1:
-        run.ob("R06.5", "write_string:shape", None, f, f["line"], "expected one copy loop at function level (found %d)" % len(loops))
-        run.floor("R06.5", 4, "write_string obligations")
+        general_write_string(run, f, "the function has %d loops at function level" % len(loops))
         return
     lp = loops[0]
     i_lp = body.index(lp)
@@ -620,7 +619,8 @@ def check_write_string(run):
            "the loop is governed by the free space and the remainder (%s)" % show(rem_e) if ok else
            "loop condition %s is not `m_avail < remaining` and no min(m_avail, remaining) bounds the chunk" % show_f(c))
     if not ok:
-        run.floor("R06.5", 4, "write_string obligations")
+        run.obs = [o for o in run.obs if not (o.rule == "R06.5" and o.key == "write_string:loop-condition")]
+        general_write_string(run, f, "the loop is not governed by a comparison of m_avail with a remainder")
         return
 
     def on_call(u, env, events, assumptions):
@@ -767,6 +767,47 @@ def check_write_string(run):
     except affine.NotAffine as ex:
         run.ob("R06.5", "write_string:shape", None, f, lp["l"], "the copy loop is not affine code the analysis can follow (%s)" % ex)
     run.floor("R06.5", 4, "write_string obligations")
+
+
+def general_write_string(run, f, because):
+    """Fallback of R06.5 for copy functions of any shape (several loops, an up-front split into head / whole buffers /
+    tail, ...): ghost counter of the bytes copied so far, loop invariants `source expression == str + copied` and
+    `remainder expression == size - copied` (affine.analyse_copy).  Obligations that depend on values the affine domain
+    cannot express (division, modulo) are *unknown*, not failures."""
+    from .. import affine
+    AV, MP = "this.m_avail", "this.m_p"
+    size_p, str_p = "p:%s" % f["params"][1]["n"], "p:%s" % f["params"][0]["n"]
+
+    def classify(u):
+        nm = callee_name(u)
+        if nm == "memcpy" and len(u.get("args", [])) == 3:
+            return "memcpy"
+        if nm == "update_buffer" and (u.get("callee") or {}).get("cls") == ENC:
+            return "update"
+        if nm == "flush_buffer" and (u.get("callee") or {}).get("cls") == ENC:
+            return "flush"
+        return None
+    try:
+        problems, returns, notes = affine.analyse_copy(f["body"], str_p, size_p, lambda e: is_member(e, "m_avail"), lambda e: is_member(e, "m_p"),
+                                                       classify, AV, MP)
+    except affine.NotAffine as ex:
+        run.ob("R06.5", "write_string:shape", None, f, f["line"], "write_string cannot be followed (%s; %s)" % (because, ex))
+        run.floor("R06.5", 1, "write_string obligations")
+        return
+    definite = [p for p in problems if p[2]]
+    unknown = [p for p in problems if not p[2]]
+    ok = False if definite else (None if unknown or notes else True)
+    run.ob("R06.5", "write_string:copies-in-order", ok, f, (definite or unknown or [(f["line"],)])[0][0],
+           "every copy writes at the cursor, reads the next uncopied byte, fits the free space and is followed by its update" if ok else
+           "; ".join(p[1] for p in (definite or unknown))[:600] + ("" if definite else " [not decidable in the affine domain: %s]" % because))
+    dec = [r[2] for r in returns]
+    okc = False if any(d is False for d in dec) else (True if dec and all(d is True for d in dec) else None)
+    bad = [r for r in returns if r[2] is False]
+    run.ob("R06.5", "write_string:complete", okc, f, f["line"],
+           "on every path to the end exactly `size` bytes have been copied" if okc else
+           ("a path reaches the end after copying %r bytes, not the size" % bad[0][0] if bad else
+            "the total copied on some path depends on values the affine domain cannot express (%s)" % because))
+    run.floor("R06.5", 2, "write_string obligations")
 
 
 def check_primitive_returns(run, rule):
